@@ -667,6 +667,7 @@ static std::string op_xlate(const toks_t& t)
 // rawptr <tainted|tvol|accept> <addr>   (C02 run-time half)
 // a refused request is reported together with what the target holds afterwards (the refusal surfaces as an
 // exception in this configuration: a raw address must not have been stored by then)
+static void rawptr_app_function() {}
 static bool is_harness_error(const std::runtime_error& e) { return std::strncmp(e.what(), "HARNESS", 7) == 0; }
 static std::string op_rawptr(const toks_t& t)
 {
@@ -684,6 +685,19 @@ static std::string op_rawptr(const toks_t& t)
   if (t[1] == "accept") {
     auto p = sbA.UNSAFE_accept_pointer(reinterpret_cast<char*>(a));
     return "OK " + addr_s((const void*)p.UNSAFE_unverified());
+  }
+  if (t[1] == "acceptfn" || t[1] == "taintedfn") {
+    // the same two entry points with a FUNCTION pointer type; address 1 stands for the address of an application function
+    using fn_t = void (*)();
+    fn_t f = a == 1 ? &rawptr_app_function : reinterpret_cast<fn_t>(a);
+    tainted_v<fn_t> p = nullptr;
+    try {
+      if (t[1] == "acceptfn") p = sbA.UNSAFE_accept_pointer(f); else p.assign_raw_pointer(sbA, f);
+    } catch (const std::runtime_error& e) {
+      if (is_harness_error(e)) throw;
+      return std::string("ABORT held=") + (p.UNSAFE_unverified() == nullptr ? "0" : "nonnull");
+    }
+    return "OK " + (a == 1 ? std::string("appfn") : addr_s(reinterpret_cast<const void*>(p.UNSAFE_unverified())));
   }
   auto pp = sbA.malloc_in_sandbox<char*>();
   auto cell = reinterpret_cast<uintptr_t>(pp.UNSAFE_unverified());
